@@ -5,7 +5,7 @@
    fmt = value.__format__(format) (contract where needed: the text does not contain the separator). *)
 From Coq Require Import ZArith List Bool Lia.
 From Pymoto Require Import Base.Bytes Model.Grid Model.B64 Model.Vti Model.Log
-  Proofs.GridP Proofs.BytesP Proofs.B64P Proofs.VtiP Proofs.LogP.
+  Proofs.GridP Proofs.BytesP Proofs.B64P Proofs.FsP Proofs.VtiP Proofs.LogP.
 Import ListNotations.
 Open Scope Z_scope.
 
@@ -229,6 +229,105 @@ Theorem C20_log_row_parses : forall c k texts, 0 <= k -> ~ is_digit c -> Forall 
 Proof. exact row_parses. Qed.
 Print Assumptions C20_log_row_parses.
 
+(* ------------------------------------------------------------------ the state of the file system *)
+(* Model/Fs.v: files are a map from names to bytes.  open(name, "w"/"w+"/"wb") + writes: the file holds exactly what
+   was written, whatever it held before; open(name, "a+") + writes: the writes follow the previous content *)
+Theorem C20_open_for_writing_truncates : forall fs name bytes other,
+  fs_read (fs_open_w fs name bytes) name = Some bytes /\
+  (other <> name -> fs_read (fs_open_w fs name bytes) other = fs_read fs other).
+Proof. intros fs name bytes other. exact (conj (fs_open_w_read fs name bytes) (fs_open_w_other fs name bytes other)). Qed.
+Print Assumptions C20_open_for_writing_truncates.
+
+Theorem C20_open_for_appending : forall fs name bytes,
+  fs_read (fs_open_a fs name bytes) name = Some (match fs_read fs name with Some old => old ++ bytes | None => bytes end).
+Proof. exact fs_open_a_read. Qed.
+Print Assumptions C20_open_for_appending.
+
+(* ScalarToFile, ANY file system `fs` before the first response (the target may exist with any content: the log of an
+   earlier run with other tags / format / separator, longer or shorter, empty, without final newline), a new module
+   instance, a history of n >= 1 calls (hypotheses of C20_log_shape): the run succeeds and the target file consists of
+   EXACTLY the header line and the n rows of THIS history -- nothing of the old content survives --; every other file
+   is untouched *)
+Theorem C20_log_any_file_system : forall (V : Type) (fmt : V -> str) fs saveto sep c0 rest,
+  Forall (fun tv => loggable V (snd tv)) c0 ->
+  Forall (fun c => same_call V c0 c /\ Forall (fun tv => loggable V (snd tv)) c) rest ->
+  exists fs' m' lines names,
+    log_fs_run V fmt fs (mkM saveto sep 0) (c0 :: rest) = Ok (fs', m') /\
+    m_iter m' = Z.of_nat (length (c0 :: rest)) /\
+    fs_read fs' saveto = Some (unlines lines) /\
+    (forall other, other <> saveto -> fs_read fs' other = fs_read fs other) /\
+    length lines = S (length (c0 :: rest)) /\
+    nth 0 lines [] = join sep (s2z "Iteration" :: names) /\
+    forall k, (k < length (c0 :: rest))%nat ->
+      nth (S k) lines [] = join sep (dec (Z.of_nat k) :: map fmt (call_vals V (nth k (c0 :: rest) []))) /\
+      length (call_vals V (nth k (c0 :: rest) [])) = length names.
+Proof. exact log_file_any_fs. Qed.
+Print Assumptions C20_log_any_file_system.
+
+(* the same as a refinement: on ANY file system the file is the text of the line-list model of C20_log_shape *)
+Theorem C20_log_file_is_line_model : forall (V : Type) (fmt : V -> str) fs saveto sep c0 rest st,
+  log_run V fmt sep l_init (c0 :: rest) = Ok st ->
+  exists fs' m', log_fs_run V fmt fs (mkM saveto sep 0) (c0 :: rest) = Ok (fs', m') /\
+    m_iter m' = Z.of_nat (length (c0 :: rest)) /\
+    fs_read fs' saveto = Some (log_file st) /\
+    forall other, other <> saveto -> fs_read fs' other = fs_read fs other.
+Proof. exact log_any_fs. Qed.
+Print Assumptions C20_log_file_is_line_model.
+
+(* in the histories of events the case files evaluate (several module instances, writes and removals by the
+   environment), consecutive calls of one instance are such a run *)
+Theorem C20_log_history_calls : forall (V : Type) (fmt : V -> str) id calls fs mods m fs' m',
+  nth_error mods id = Some m -> log_fs_run V fmt fs m calls = Ok (fs', m') ->
+  log_world_run V fmt (fs, mods) (map (LCall id) calls) = Ok (fs', lset_nth mods id m').
+Proof. exact world_calls_are_run. Qed.
+Print Assumptions C20_log_history_calls.
+
+(* WriteToVTI, one response on ANY file system: the file it names holds exactly the bytes of the model's file (what a
+   file of that name held before is gone), every other file is untouched; nothing to write: no file is touched *)
+Theorem C20_wvti_file_exact : forall fs m sigs fs' m', wvti_step fs m sigs = Ok (fs', m') ->
+  m' = vm_next m /\
+  match vm_response m sigs with
+  | Ok (Some (name, bytes)) =>
+    fs_read fs' name = Some bytes /\ forall other, other <> name -> fs_read fs' other = fs_read fs other
+  | _ => fs' = fs
+  end.
+Proof. exact wvti_step_file. Qed.
+Print Assumptions C20_wvti_file_exact.
+
+(* numbered mode, a history of n calls on ANY file system, starting at any iteration number: afterwards the file of
+   call k holds exactly the model's file of call k, for every k; files named by no call are untouched (e.g. files of
+   other iterations left by an earlier run) *)
+Theorem C20_wvti_numbered_files : forall calls fs m fs' m',
+  0 <= vm_iter m -> vm_overwrite m = false -> wvti_fs_run fs m calls = Ok (fs', m') ->
+  (forall k name bytes, (k < length calls)%nat ->
+     vm_response (vm_at m (Z.of_nat k)) (nth k calls []) = Ok (Some (name, bytes)) -> fs_read fs' name = Some bytes) /\
+  (forall other,
+     (forall k name bytes, (k < length calls)%nat ->
+        vm_response (vm_at m (Z.of_nat k)) (nth k calls []) = Ok (Some (name, bytes)) -> other <> name) ->
+     fs_read fs' other = fs_read fs other).
+Proof. exact wvti_numbered_files. Qed.
+Print Assumptions C20_wvti_numbered_files.
+
+(* both modes: the file of the LAST call is exactly the model's file of that call; overwrite mode touches one name *)
+Theorem C20_wvti_last_file : forall calls c fs m fs' m' name bytes,
+  wvti_fs_run fs m (calls ++ [c]) = Ok (fs', m') ->
+  vm_response (vm_at m (Z.of_nat (length calls))) c = Ok (Some (name, bytes)) ->
+  fs_read fs' name = Some bytes.
+Proof. exact wvti_last_file. Qed.
+Print Assumptions C20_wvti_last_file.
+
+Theorem C20_wvti_overwrite_others : forall calls fs m fs' m',
+  vm_overwrite m = true -> wvti_fs_run fs m calls = Ok (fs', m') ->
+  forall other, other <> vti_filename (vm_saveto m) -> fs_read fs' other = fs_read fs other.
+Proof. exact wvti_overwrite_others. Qed.
+Print Assumptions C20_wvti_overwrite_others.
+
+Theorem C20_wvti_history_calls : forall id calls fs mods m fs' m',
+  nth_error mods id = Some m -> wvti_fs_run fs m calls = Ok (fs', m') ->
+  wvti_world_run (fs, mods) (map (VCall id) calls) = Ok (fs', set_nth mods id m').
+Proof. exact vworld_calls_are_run. Qed.
+Print Assumptions C20_wvti_history_calls.
+
 (* ------------------------------------------------------------------ repaired defects (F21, F22, F23): what holds now *)
 (* F21: a block of k nodal vectors (k x c*nnodes) goes through the whole of write_to_vti as k point arrays whenever no
    axis is a multiple of nel; C20_block_point_arrays_witness: the hypotheses hold for the former failing input, the
@@ -296,3 +395,40 @@ Example C20_log_nonvacuous :
   | Err _ => False
   end.
 Proof. vm_compute. reflexivity. Qed.
+
+(* the same log written where an older, longer log with another separator and other tags already is (and a second
+   file next to it): the old content is gone, the neighbour is untouched *)
+Example C20_log_any_fs_nonvacuous :
+  let call (x : Z) := [(s2z "f", LNum x)] in
+  let old := [(s2z "log.txt", s2z "Iteration,a,b
+0,1,2
+1,3,4
+2,5,6
+3,7,8
+no newline at the end"); (s2z "log.txt.bak", s2z "keep")] in
+  match log_fs_run Z dec old (mkM (s2z "log.txt") [59] 0) [call 10; call 20] with
+  | Ok (fs', m') => m_iter m' = 2 /\ fs_read fs' (s2z "log.txt") = Some (s2z "Iteration;f
+0;10
+1;20
+") /\ fs_read fs' (s2z "log.txt.bak") = Some (s2z "keep")
+  | Err _ => False
+  end.
+Proof. vm_compute. repeat split. Qed.
+
+(* WriteToVTI histories on a file system that holds files of iterations 0 and 7 of an earlier run: numbered mode
+   replaces 0000, adds 0001, leaves 0007; overwrite mode writes the one file twice *)
+Example C20_wvti_any_fs_nonvacuous :
+  let g := G 3 1 0 in
+  let os := [s2z "0.0"; s2z "0.0"; s2z "0.0"] in
+  let c (k : Z) := [(s2z "s", [3], map w1 [k; k + 1; k + 2])] in
+  let old := [(s2z "o.0000.vti", s2z "old, and much longer than nothing"); (s2z "o.0007.vti", s2z "seven"); (s2z "o.vti", [])] in
+  match wvti_fs_run old (mkVM g (s2z "o.vti") false os os 0) [c 1; c 2],
+        wvti_fs_run old (mkVM g (s2z "o.vti") true os os 0) [c 1; c 2],
+        vti_file g os os (c 1), vti_file g os os (c 2) with
+  | Ok (fa, _), Ok (fb, _), Ok (Some b1), Ok (Some b2) =>
+    fa = [(s2z "o.0000.vti", b1); (s2z "o.0007.vti", s2z "seven"); (s2z "o.vti", []); (s2z "o.0001.vti", b2)] /\
+    fb = [(s2z "o.0000.vti", s2z "old, and much longer than nothing"); (s2z "o.0007.vti", s2z "seven"); (s2z "o.vti", b2)] /\
+    b1 <> b2
+  | _, _, _, _ => False
+  end.
+Proof. vm_compute. repeat split. discriminate. Qed.
